@@ -1,6 +1,6 @@
 use digest::{const_oid::AssociatedOid, Digest};
 use md5::Md5;
-use num_bigint::ModInverse;
+use num_bigint::{BigUint, ModInverse};
 use rand::{CryptoRng, Rng};
 use ripemd::Ripemd160;
 use rsa::{
@@ -64,11 +64,20 @@ impl SecretKey {
         q: Mpi,
         _u: Mpi,
     ) -> Result<Self> {
+        let p: BigUint = p.into();
+        let q: BigUint = q.into();
+        // `u = p^-1 mod q` is recomputed whenever the key is serialized (`to_mpi`), and
+        // `from_components` does not require `p` and `q` to be coprime.
+        if p.clone().mod_inverse(&q).is_none() {
+            return Err(format_err!(
+                "invalid RSA secret key: p has no inverse modulo q"
+            ));
+        }
         let secret_key = RsaPrivateKey::from_components(
             pub_params.key.n().clone(),
             pub_params.key.e().clone(),
             d.into(),
-            vec![p.into(), q.into()],
+            vec![p, q],
         )?;
         Ok(Self(secret_key))
     }
